@@ -51,7 +51,8 @@ def run_demo(d, mdir):
         shutil.copy(f, os.path.join(d, pk, os.path.basename(f)))
     m = re.search(r"-run\s+'?\"?([\w^$|]+)", meta.get("demo_cmd", ""))
     run = m.group(1) if m else "TestMut"
-    rc, out = sh("go test -vet=off -count=1 -run '%s' ./%s" % (run, pk), cwd=d)
+    race = "-race " if "-race" in meta.get("demo_cmd", "") else ""
+    rc, out = sh("go test %s-vet=off -count=1 -run '%s' ./%s" % (race, run, pk), cwd=d)
     for f in demo_files(mdir):
         os.unlink(os.path.join(d, pk, os.path.basename(f)))
     return rc, out
